@@ -131,3 +131,7 @@ func vC11Session(maxReq int) {
 	vAssert(fs.viol == "", "C11: no entry is used after release: "+fs.viol)
 	vReach("c11.session")
 }
+
+// larger configurations, explored delay-bounded (see check spec)
+func VerifC11_Shutdown4() { vC11Shutdown(4) }
+func VerifC11_Session3()  { vC11Session(3) }
